@@ -1112,6 +1112,95 @@ def orphans(res, widen=False):
                      'the child\'s object must keep its value and a store through it must not change the parent\'s new object')
 
 
+# ------------------------------------------------------------- updaters forked by the thread that HOLDS the lock
+def forklock_cases(tier, widen=False):
+    """fork start method; the parent starts the updater processes from inside `with obj.get_lock():`"""
+    cs = [dict(kind='Value', t='i', value=0, nchild=2, n=30),
+          dict(kind='Array', t='i', init=[0, 10, 20], nchild=2, n=30),
+          dict(kind='Value', t='d', value=0.0, lock='RLock', nchild=2, n=30),
+          dict(kind='RawValue', t='i', value=5, lock='RLock', nchild=2, n=30),
+          dict(kind='RawValue', t='i', value=5, lock='Lock', nchild=2, n=30)]
+    if tier != 'quick' or widen:
+        cs += [dict(kind='Value', t='l', value=-3, nchild=4, n=400),
+               dict(kind='Array', t='d', init=[0.5, 1.5], lock='RLock', nchild=3, n=200),
+               dict(kind='Value', t='c_ulonglong', value=2 ** 40, nchild=3, n=200),
+               dict(kind='Value', t='i', value=0, nchild=1, n=1, grace=1.0)]
+    return cs
+
+
+def forklock_describe(c):
+    what = {'Value': 'Value(%r, %r%s)', 'Array': 'Array(%r, %r%s)', 'RawValue': 'RawValue(%r, %r) guarded by a plain %s'}[c['kind']]
+    arg = c.get('init') if c['kind'] == 'Array' else c.get('value', 0)
+    if c['kind'] == 'RawValue':
+        return what % (c['t'], arg, 'ctx.%s()' % c['lock'])
+    return what % (c['t'], arg, '' if c.get('lock', 'default') == 'default' else ', lock=ctx.%s()' % c['lock'])
+
+
+def forklock_expected(c):
+    tot = c['nchild'] * c['n'] + 1
+    return [x + tot for x in c['init']] if c['kind'] == 'Array' else c.get('value', 0) + tot
+
+
+def forklock_monitor(c, r):
+    """None or (signature, text), on the observation alone: while the parent is inside `with lock:` no child gets the
+    lock and the value does not change under it; every child's first update comes after the parent's release; at the
+    end no update is lost"""
+    tag = ('fork start method, %s: the parent takes the object\'s lock, reads the value, starts %d updater processes (%d locked '
+           'updates each) from INSIDE the `with lock:` block, reads the value again, stores what it first read + 1 and releases'
+           % (forklock_describe(c), c['nchild'], c['n']))
+    if 'error' in r:
+        return ('C15:fork-scenario-failed', '%s: %s' % (tag, r['error']))
+    tried = r.get('tried', [])
+    if not r.get('all_tried') or len(tried) != c['nchild']:
+        return ('C15:fork-scenario-failed', '%s: %d of %d children reported (exit codes %s)' % (tag, len(tried), c['nchild'], r.get('exitcodes')))
+    bad = []
+    copies = '; '.join('child %d: count=%s is_mine=%s' % (t['id'], t['count'], t['is_mine']) for t in tried)
+    if r['value_before_parent_update'] != r['value_at_acquire']:
+        bad.append(('C15:value-changed-under-held-lock',
+                    'the value changed from %s to %s while the parent was holding the lock (%d of %d children had finished all their '
+                    'updates before the parent released)' % (r['value_at_acquire'], r['value_before_parent_update'],
+                                                            r.get('done_while_parent_inside', 0), c['nchild'])))
+    got = [t['id'] for t in tried if t['got']]
+    if got:
+        bad.append(('C15:lock-held-by-two-processes',
+                    'a non-blocking acquire of the lock succeeded in child%s %s while the parent was inside its `with lock:` block'
+                    % ('' if len(got) == 1 else 'ren', got)))
+    done = r.get('done', [])
+    errs = ['child %d: %s' % (d['id'], d['error']) for d in done if 'error' in d]
+    if errs:
+        bad.append(('C15:raised', 'locked updates raised: ' + '; '.join(errs)))
+    early = [d['id'] for d in done if d.get('first_update') is not None and d['first_update'] < r['t_release']]
+    if early:
+        bad.append(('C15:lock-held-by-two-processes',
+                    'child%s %s made locked updates before the parent released the lock' % ('' if len(early) == 1 else 'ren', early)))
+    if not r.get('all_done') or len(done) != c['nchild']:
+        bad.append(('C15:locked-updater-hung', '%d of %d children finished their updates (exit codes %s)'
+                    % (len(done), c['nchild'], r.get('exitcodes'))))
+    elif not errs and r['final'] != forklock_expected(c):
+        bad.append(('C15:lost-update', 'lost updates: %d locked read-modify-writes (%d x %d in the children + 1 in the parent) leave %s, '
+                    'expected %s' % (c['nchild'] * c['n'] + 1, c['nchild'], c['n'], r['final'], forklock_expected(c))))
+    if not bad:
+        return None
+    return (bad[0][0], '%s -- %s. What the children\'s copies of the %s said right after the fork: %s (after-fork hooks registered for '
+            'the lock in the parent: %s): a child forked by the thread that holds a lock must not inherit its ownership'
+            % (tag, '; '.join(b[1] for b in bad), r.get('lock_type'), copies, r.get('after_fork_hooks_for_lock')))
+
+
+def forklocks(res, widen=False):
+    cases = forklock_cases(res.tier, widen)
+    outs = core.run_driver('sharedmem_driver.py', dict(mode='forklock', cases=cases), timeout=900)
+    for c, r in zip(cases, outs):
+        m = forklock_monitor(c, r)
+        if m:
+            res.alarms.append(dict(signature=m[0], what=m[1][:1500], replay=dict(forklock_case=c, impl={k: v for k, v in r.items() if k != 'case'})))
+    res.add_cov(evaluations=len(cases), distinct=len(cases), traces=len(cases), real_fork_under_lock_scenarios=len(cases),
+                real_fork_under_lock_children=sum(c['nchild'] for c in cases),
+                real_fork_under_lock_kinds=sorted({forklock_describe(c) for c in cases}),
+                rule='real processes, fork start method: updater processes are started by the thread that holds the object\'s lock '
+                     '(Value / Array with the default and an explicit RLock, a RawValue guarded by a plain RLock / Lock); monitors: value '
+                     'unchanged while the parent holds the lock, no child gets the lock or updates before the parent releases, no lost update')
+
+
 def procs(res):
     out = core.run_driver('sharedmem_driver.py', dict(mode='procs', methods=['fork', 'spawn', 'forkserver'], nproc=4, n=2500),
                           timeout=900)
@@ -1194,7 +1283,8 @@ def run(res):
         chains(r, widen=widen)
         orphans(r, widen=widen)
     run_phases(res, [('mem', lambda r: correspond(r, n)), ('traces', traces), ('locks', locks),
-                     ('hops', lambda r: hops(r, nh)), ('real', real_processes)])
+                     ('hops', lambda r: hops(r, nh)), ('real', real_processes),
+                     ('forklock', lambda r: forklocks(r, widen=widen))])
     # the two findings of the pinned tree that fire on every run go last: anything else is reported first
     res.alarms.sort(key=lambda a: a['signature'] in (SIG_RECYCLED, SIG_FALSY_LOCK))
     if res.tier != 'quick':
@@ -1246,6 +1336,16 @@ def replay(path):
         print('scenario:', json.dumps(c))
         print('implementation now:', json.dumps(out)[:3000])
         m = orphan_monitor(c, out)
+        print('monitor:', m or 'property holds on this scenario')
+        return 1 if m else 0
+    if 'replay' in d and 'forklock_case' in d['replay']:
+        c = d['replay']['forklock_case']
+        out = core.run_driver('sharedmem_driver.py', dict(mode='forklock', cases=[c]))[0]
+        out.pop('case', None)
+        print('scenario:', json.dumps(c))
+        print('expected final value:', json.dumps(forklock_expected(c)))
+        print('implementation now:', json.dumps(out)[:3000])
+        m = forklock_monitor(c, out)
         print('monitor:', m or 'property holds on this scenario')
         return 1 if m else 0
     if 'replay' in d and 'chain_case' in d['replay']:
